@@ -35,16 +35,37 @@ Lemma to_bytes_err x len e : to_bytes x len = Err e -> e = PyValueError.
 Proof. unfold to_bytes. destruct (_ <? _)%N; [discriminate|intros [= <-]; reflexivity]. Qed.
 
 (* ---- stream.read(n) ---- *)
-Lemma read_exact_app (a rest : bytes) : read_exact (length a) (a ++ rest) = Ok (a, rest).
+Lemma take_bytes_app (a rest : bytes) : take_bytes (length a) (a ++ rest) = Some (a, rest).
+Proof. induction a as [|x a IH]; simpl; [reflexivity|rewrite IH; reflexivity]. Qed.
+
+Lemma take_bytes_short n : forall s : bytes, (length s < n)%nat -> take_bytes n s = None.
 Proof.
-  unfold read_exact. rewrite app_length.
-  destruct (Nat.ltb_spec (length a + length rest) (length a)); [lia|].
-  rewrite firstn_app, skipn_app, Nat.sub_diag, firstn_all, skipn_all. simpl.
-  rewrite app_nil_r; reflexivity.
+  induction n as [|n IH]; intros s H; [lia|]. destruct s as [|x s]; simpl; [reflexivity|].
+  rewrite IH; [reflexivity|simpl in H; lia].
 Qed.
 
+Lemma take_bytes_spec n : forall (s a b : bytes), take_bytes n s = Some (a, b) -> s = a ++ b /\ length a = n.
+Proof.
+  induction n as [|n IH]; intros s a b; simpl.
+  - intros [= <- <-]. auto.
+  - destruct s as [|x s]; [discriminate|]. destruct (take_bytes n s) as [[a' b']|] eqn:E; [|discriminate].
+    intros [= <- <-]. destruct (IH _ _ _ E) as (-> & <-). auto.
+Qed.
+
+Lemma read_exact_app (a rest : bytes) : read_exact (length a) (a ++ rest) = Ok (a, rest).
+Proof. unfold read_exact. rewrite take_bytes_app; reflexivity. Qed.
+
 Lemma read_exact_short n (s : bytes) : (length s < n)%nat -> read_exact n s = Err BinaryDictIOError.
-Proof. intros H; unfold read_exact. apply Nat.ltb_lt in H; rewrite H; reflexivity. Qed.
+Proof. intros H; unfold read_exact. rewrite take_bytes_short by exact H; reflexivity. Qed.
+
+(* the model agrees with the obvious specification *)
+Lemma read_exact_spec n (s : bytes) :
+  read_exact n s = if (length s <? n)%nat then Err BinaryDictIOError else Ok (firstn n s, skipn n s).
+Proof.
+  destruct (Nat.ltb_spec (length s) n) as [H|H]; [apply read_exact_short; exact H|].
+  rewrite <- (firstn_skipn n s) at 1. replace n with (length (firstn n s)) at 1 by (apply firstn_length_le; exact H).
+  apply read_exact_app.
+Qed.
 
 Lemma read_unsigned_app x n bs rest :
   to_bytes x n = Ok bs -> read_unsigned n (bs ++ rest) = Ok (x, rest).
@@ -258,7 +279,7 @@ Lemma read_records_acc m : forall s racc r rest x,
   read_records m s racc = Ok (r, rest) -> In x racc -> In x r.
 Proof.
   induction m as [|m IHm]; intros s racc r rest x; simpl.
-  - intros [= <- _] Hx. apply in_rev in Hx; exact Hx.
+  - intros [= <- _] Hx. rewrite rev_append_rev, app_nil_r. apply in_rev in Hx; exact Hx.
   - destruct (read_unsigned DICT_KEY_BYTE_SIZE s) as [kl|]; simpl; [|discriminate].
     destruct (read_exact _ (snd kl)) as [kb|]; simpl; [|discriminate].
     destruct (utf8_decode (fst kb)) as [key'|]; simpl; [|discriminate].
